@@ -170,7 +170,7 @@ class Tracker(CmdMixin, MboxMixin, SweepMixin, Monitor):
             # a bind whose client_version is not the documented pair: whatever the server answers (today it fails
             # internally) is not judged by any property; what it leaves behind for later commands is
             self.dontcare["bind_with_malformed_client_version"] += 1
-        if st.exc and st.kind in ("cmd", "connect", "drop", "turn", "closing") and not f8 and not outside:
+        if st.exc and st.kind in ("cmd", "connect", "drop", "turn", "closing", "halfconn") and not f8 and not outside:
             # the command's own guarantee is broken too (close always completes, release is always answered, ...)
             own = {"close": "C08", "release": "C07", "claim": "C03", "open": "C01", "add": "C02", "allocate": "C04", "list": "C18"}
             t = st.msg.get("type") if isinstance(st.msg, dict) else None
@@ -180,7 +180,14 @@ class Tracker(CmdMixin, MboxMixin, SweepMixin, Monitor):
             self.flag({"C17"} | extra, "internal failure in handler", st,
                       {"exc": st.exc, "msg": st.msg, "tb": _tail(st.tb)})
         for (c, how) in st.drops:
-            self.flag({"C17"}, "server dropped the connection", st, {"conn": c, "how": how, "msg": st.msg})
+            also = set()
+            victim, actor = self.cm.get(c), self.cm.get(st.conn) if st.conn else None
+            if victim is not None and c != st.conn:
+                if victim.sub is not None:
+                    also.add("C02")         # a subscriber is cut off by somebody else's command
+                if actor is not None and actor.bound and victim.bound and actor.app != victim.app:
+                    also.add("C06")         # ... of another app
+            self.flag({"C17"} | also, "server dropped the connection", st, {"conn": c, "how": how, "msg": st.msg})
         if f8:
             # part of the known finding: the failed INSERT leaves the server's connection inside an (empty)
             # transaction until the next commit; frames and steps in that window are not judged by C09
@@ -204,6 +211,10 @@ class Tracker(CmdMixin, MboxMixin, SweepMixin, Monitor):
             self._on_drop(world, st, d, ud)
         elif k == "closing":
             self._on_closing(world, st, d, ud)
+        elif k == "halfconn":
+            self.ev["halfconn_changes_nothing"] += 1
+            if d or ud or st.frames:
+                self.flag({"C17"}, "a connection that never completed its handshake changed state or produced frames", st, {"diff": _d(d)})
         elif k == "sweep":
             self._on_sweep(world, st, d, ud)
         elif k in ("start", "stop"):
